@@ -233,7 +233,8 @@ class Table(Selectable):
         return not self.__eq__(other)
 
     def __hash__(self) -> int:
-        return hash(str(self))
+        # only what __eq__ compares (and is hashable): equal tables must hash equally
+        return hash((self._table_name, self.alias))
 
     def select(self, *terms: Sequence[int | float | str | bool | Term | Field]) -> "QueryBuilder":
         """
@@ -1393,7 +1394,8 @@ class QueryBuilder(Selectable, Term):  # type:ignore[misc]
         return not self.__eq__(other)
 
     def __hash__(self) -> int:
-        return hash(self.alias) + sum(hash(clause) for clause in self._from)
+        # only what __eq__ compares: equal builders must hash equally
+        return hash(self.alias)
 
     def get_sql(self, ctx: SqlContext | None = None) -> str:
         if not ctx:
